@@ -404,7 +404,11 @@ func runGenerated(c *engine.Ctx) {
 		sb, maxLen = 4, 5
 	}
 	all := c18.GenSchemas(sb)
-	c.Note(fmt.Sprintf("%d generated schemas of <= %d nodes x all token paths of <= %d tokens x 3 validations", len(all), sb, maxLen))
+	// every schema a second time with names that are unique among siblings only
+	for _, kids := range all[:len(all):len(all)] {
+		all = append(all, c18.RenameShared(kids))
+	}
+	c.Note(fmt.Sprintf("%d generated schemas (globally unique names, and names shared between levels) of <= %d nodes x all token paths of <= %d tokens x 3 validations", len(all), sb, maxLen))
 	for gi, g := range all {
 		if c.Expired() {
 			return
